@@ -15,7 +15,8 @@ EXTENDS Integers, Sequences, FiniteSets, TLC
 CONSTANTS Ids,          \* agent ids offered by Next
           MaxVal,       \* agent values 0..MaxVal (touch = +1 mod MaxVal+1)
           ACollectors,  \* c -> [start, end, freq, fkind, comp, incl]   agent collectors of the exhaustive runs
-          FCollectors,  \* f -> [start, end, freq, wc, k]               file collectors (k records per collection)
+          FCollectors,  \* f -> [start, end, freq, wc, plan]            file collectors; the collection at timestep t yields
+                        \*                                             plan[(t mod Len(plan)) + 1] records (possibly none)
           MaxClock,
           TwoOps,       \* Next also offers timesteps with two population operations
           FlushTest     \* "lt" = the code: write_count < last_write | "le" = negative control
@@ -75,7 +76,7 @@ CollectAgent(c, recs, t, E, V) ==
 RecName(t, j) == <<t, j>>
 CollectFile(f, st, t) ==
     IF ~Eligible(f, t) THEN st
-    ELSE LET new   == [j \in 1..f.k |-> RecName(t, j)]
+    ELSE LET new   == [j \in 1..f.plan[(t % Len(f.plan)) + 1] |-> RecName(t, j)]
              held2 == st.held \o new
              last2 == st.last + 1
              flush == IF FlushTest = "lt" THEN f.wc < last2 ELSE f.wc <= last2
